@@ -97,7 +97,7 @@ def run(ctx):
         "positive values are exact rationals in the model; the code is compared with rel. tolerance 1e-12",
         "guard from the statement: no 0/inf/NaN in the linear run's inside/outside/g_i where the logarithmic run is finite",
     ]
-    _, cases = bp.prob_run(ctx, "c12_a", G=2, mode="finite", max_len=3)
+    _, cases = bp.prob_run(ctx, "c12_a", G=2, mode="finite", max_len=3 if q else 5)
     if not q:
         _, more = bp.prob_run(ctx, "c12_b", G=3, mode="finite", ops=("rowsum_lower_tri", "rowsum_upper_tri"), max_len=1)
         cases += more
@@ -134,7 +134,7 @@ def run(ctx):
             if bp.io_nontrivial(inst):
                 ctx.nontriv(bp.io_key(inst))
     bp.tick(ctx, "replay_cases")
-    inputs = bp.sparse_corpus(ctx, 10 if q else 60) + bp.corpus(ctx, 2 if q else 12, 1 if q else 6, small=q)
+    inputs = bp.sparse_corpus(ctx, 10 if q else 150) + bp.corpus(ctx, 2 if q else 16, 1 if q else 6, small=q)
     for k, inp in enumerate(inputs):
         for method in ("inside_outside", "maximization"):
             space_pair(ctx, inp.name, inp.ts, inp.mu, inp.Ne, method, 1e-8 if k % 2 == 0 else 1e-3,
